@@ -37,14 +37,13 @@ package fdo
 //@   props C04 C06 C01 C10(sweep)
 //@   sweep bounds,panic,nilmem
 //@   pure
-//@   requires @payload len(v.Entries) > 0 ==> v.Entries[len(v.Entries)-1].Payload != nil
 //@   ensures @last err == nil && len(v.Entries) > 0 ==> u(result0) == PubOf(u(v.Entries[len(v.Entries)-1].Payload.Val.PublicKey))
 //@   ensures @mfg err == nil && len(v.Entries) == 0 ==> u(result0) == PubOf(u(v.Header.Val.ManufacturerKey))
 
 // ---- TO0 (C06) --------------------------------------------------------------------------------
 
 //@ func fdo.TO0Server.acceptOwner
-//@   props C06 C08 C10(sweep)
+//@   props C06 C07(functional) C08 C10(sweep)
 //@   sweep bounds,panic,make,nilmem,nooverflow
 //@   callassert SetRVBlob#1: @to0dhash bytes(sig.To1d.Payload.Val.To0dHash.Value) == digest(happ(hinit(u(hashfn(sig.To1d.Payload.Val.To0dHash.Algorithm))), Enc(u(sig.To0d.Val))))
 //@   callassert SetRVBlob#1: @nonce u(sig.To0d.Val.NonceTO0Sign) == TO0NonceOf(u(ctx))
@@ -111,6 +110,7 @@ package fdo
 
 //@ func fdo.sendHelloDevice
 //@   maxpaths 2000
+//@   modifies nothing
 //@   props C01 C10(sweep)
 //@   sweep bounds,panic,make,nilmem
 //@   callassert Send#1: @hello arg2 == 60 && u(unwrap(arg3)) == u(hello) && arg4 == nil
@@ -132,6 +132,7 @@ package fdo
 //@ func fdo.verifyVoucher
 //@   props C01 C07 C10(sweep)
 //@   sweep bounds,panic,make,nilmem
+//@   modifies nothing
 //@   requires @h256 c.HmacSha256 != nil
 //@   ensures @header ? err == nil ==> HeaderMacOk(u(info.OVHHmac), u(info.OVH), u(c.HmacSha256), u(c.HmacSha384))
 //@   ensures @mfgkey ? err == nil ==> bytes(c.Cred.PublicKeyHash.Value) == digest(happ(hinit(u(hashfn(c.Cred.PublicKeyHash.Algorithm))), Enc(u(info.OVH.ManufacturerKey))))
@@ -235,3 +236,160 @@ package fdo
 //@   nopaths
 //@   pure
 //@   ensures result != nil
+
+// ---- TO2 device side: release points and the replacement credential (C01, C03) --------
+
+// OwnerProven(sess) is DEFINED as "verifyOwner returned this session without error".
+//@ func fdo.verifyOwner
+//@   props C01 C10(sweep)
+//@   sweep bounds,panic,make
+//@   modifies nothing
+//@   requires @h256 c.HmacSha256 != nil
+//@   ensures @voucher ? err == nil ==> VoucherProven(u(info.PublicKeyToValidate)) && HdrProven(u(info.PublicKeyToValidate), u(info.OVH), u(info.OVHHmac))
+//@   ensures @results ? err == nil ==> u(result1) == u(info.PublicKeyToValidate) && result2 != nil && u(*result2) == u(info.OVH) && u(result3) == u(sess)
+//@   ensures! err == nil ==> OwnerProven(u(result3))
+
+// DeviceProven(sess) is DEFINED as "proveDevice returned without error for this session".
+//@ func fdo.proveDevice
+//@   props C01 C03 C10(sweep)
+//@   sweep bounds,panic,make
+//@   modifies nothing
+//@   callassert Send#1: @msg64 arg2 == 64
+//@   ensures @nonce ? err == nil ==> forall k in 0..16: setupDevice.Payload.Val.NonceTO2SetupDv[k] == setupDeviceNonce[k]
+//@   ensures @partial ? err == nil && result1 != nil ==> u(result1.GUID) == u(setupDevice.Payload.Val.GUID) && u(result1.RvInfo) == u(setupDevice.Payload.Val.RendezvousInfo) && u(result1.ManufacturerKey) == u(setupDevice.Payload.Val.Owner2Key)
+//@   ensures! err == nil ==> DeviceProven(u(sess))
+
+//@ func fdo.reuseCredentials
+//@   nopaths
+//@   modifies nothing
+
+// the service-info phase starts only after both attestations
+//@ func fdo.exchangeServiceInfo
+//@   nopaths
+//@   modifies nothing
+//@   requires @owner OwnerProven(u(sess))
+//@   requires @device DeviceProven(u(sess))
+
+//@ func fdo.sendReadyServiceInfo
+//@   props C03 C10(sweep)
+//@   sweep bounds,make
+//@   requires @alg alg == -16 || alg == -43 || alg == 5 || alg == 6
+//@   requires @owner OwnerProven(u(sess)) && DeviceProven(u(sess))
+//@   modifies nothing
+//@   callassert hmacHash#1: @header u(unwrap(arg1)) == u(replacementOVH) && (u(arg0) == u(c.HmacSha256) || u(arg0) == u(c.HmacSha384))
+//@   callassert Send#1: @msg66 arg2 == 66 && u(arg4) == u(sess)
+
+//@ func fdo.hmacHash
+//@   nopaths
+//@   modifies nothing
+
+//@ func fdo.hashAlgFor
+//@   props C04 C09 C10(sweep)
+//@   sweep bounds,panic,nilmem
+//@   pure
+//@   ensures @algs err == nil ==> result0 == -16 || result0 == -43
+
+//@ func fdo.TO2
+//@   props C01 C03 C10(sweep)
+//@   sweep bounds,panic,make
+//@   maxpaths 20000
+//@   requires @h256 c.HmacSha256 != nil
+//@   requires @credalg c.Cred.PublicKeyHash.Algorithm == -16 || c.Cred.PublicKeyHash.Algorithm == -43 || c.Cred.PublicKeyHash.Algorithm == 5 || c.Cred.PublicKeyHash.Algorithm == 6
+//@   ensures @nocred err != nil ==> result0 == nil
+//@   ensures @cred ? result0 != nil ==> result0.Version == originalOVH.Version && u(result0.DeviceInfo) == u(originalOVH.DeviceInfo) && u(result0.GUID) == u(partialOVH.GUID) && u(result0.RvInfo) == u(partialOVH.RvInfo)
+//@   ensures @credhash ? result0 != nil ==> result0.PublicKeyHash.Algorithm == alg && bytes(result0.PublicKeyHash.Value) == digest(happ(hinit(u(hashfn(alg))), Enc(u(partialOVH.ManufacturerKey))))
+//@   ensures @reuse ? result0 == nil && err == nil ==> partialOVH == nil
+//@   callassert sendReadyServiceInfo#1: @header replacementOVH != nil ==> u(*replacementOVH) == tuple(originalOVH.Version, partialOVH.GUID, partialOVH.RvInfo, originalOVH.DeviceInfo, partialOVH.ManufacturerKey, originalOVH.CertChainHash)
+//@   callassert sendReadyServiceInfo#1: @alg u(arg2) == u(alg)
+
+// ---- TO2 owner side: replacement voucher at Done (C03, C08) ------------------------------
+//@ func fdo.TO2Server.ownerKey
+//@   nopaths
+//@   pure
+//@   ensures err == nil ==> result0 != nil && result1 != nil
+//@   ensures! err == nil ==> u(*result1) == OwnerKeyFor(u(keyType), u(keyEncoding), u(rsaBits))
+
+//@ func fdo.TO2Server.to2Done2
+//@   props C03 C08 C10(sweep)
+//@   sweep bounds,panic,make,nilmem
+//@   callsites ReplaceVoucher 1
+//@   callassert ReplaceVoucher#1: @nonce u(done.NonceTO2ProveDv) == ProveDvNonceOf(u(ctx))
+//@   callassert ReplaceVoucher#1: @guid u(arg2) == SessGUID(u(ctx)) && u(currentOV) == VoucherFor(u(arg2))
+//@   callassert ReplaceVoucher#1: @header arg3.Header.Val.Version == currentOV.Header.Val.Version && u(arg3.Header.Val.GUID) == ReplGUIDOf(u(ctx)) && u(arg3.Header.Val.RvInfo) == RvInfoOf(u(ctx)) && u(arg3.Header.Val.DeviceInfo) == u(currentOV.Header.Val.DeviceInfo) && u(arg3.Header.Val.CertChainHash) == u(currentOV.Header.Val.CertChainHash)
+//@   callassert ReplaceVoucher#1: @ownerkey u(arg3.Header.Val.ManufacturerKey) == OwnerKeyFor(u(currentOV.Header.Val.ManufacturerKey.Type), u(currentOV.Header.Val.ManufacturerKey.Encoding), u(rsaBits))
+//@   callassert ReplaceVoucher#1: @rest u(arg3.Hmac) == ReplHmacOf(u(ctx)) && u(arg3.CertChain) == u(currentOV.CertChain) && len(arg3.Entries) == 0 && arg3.Version == currentOV.Version
+//@   ensures @reply err == nil ==> result0 != nil && u(result0.NonceTO2SetupDv) == SetupDvNonceOf(u(ctx))
+
+//@ func fdo.TO2Server.ownerServiceInfoReady
+//@   props C03 C08 C10(sweep)
+//@   sweep bounds,panic,make,nilmem
+//@   callassert SetReplacementHmac#1: @fromdevice u(arg2) == u(*deviceReady.Hmac)
+//@   callsites SetReplacementHmac 1
+
+// ---- DI (C03): credential and stored voucher are built from the same header -----------
+//@ func fdo.DI
+//@   props C03 C10(sweep)
+//@   sweep bounds,panic,make
+//@   ensures @nocred err != nil ==> result0 == nil
+//@   ensures @cred ? err == nil ==> result0 != nil && result0.Version == ovh.Version && u(result0.DeviceInfo) == u(ovh.DeviceInfo) && u(result0.GUID) == u(ovh.GUID) && u(result0.RvInfo) == u(ovh.RvInfo)
+//@   ensures @credhash ? err == nil ==> result0.PublicKeyHash.Algorithm == alg && bytes(result0.PublicKeyHash.Value) == digest(happ(hinit(u(hashfn(alg))), Enc(u(ovh.ManufacturerKey))))
+//@   callassert setHmac#1: @header u(arg3) == u(ovh)
+//@   callassert setHmac#1: @secret (alg == -16 && u(arg2) == u(c.HmacSha256)) || (alg == -43 && u(arg2) == u(c.HmacSha384))
+
+//@ func fdo.appStart
+//@   props C03 C10(sweep)
+//@   sweep bounds,panic,make,nilmem
+//@   modifies nothing
+//@   callassert Send#1: @msg10 arg2 == 10 && arg4 == nil
+//@   ensures @nonnil err == nil ==> result0 != nil
+
+//@ func fdo.setHmac
+//@   props C03 C10(sweep)
+//@   sweep bounds,panic,make,nilmem
+//@   modifies nothing
+//@   callassert hmacHash#1: @header u(arg0) == u(hmac) && u(unwrap(arg1)) == u(ovh)
+//@   callassert Send#1: @msg12 arg2 == 12 && arg4 == nil && u(msg.Hmac) == u(ovhHash)
+
+//@ func fdo.DIServer.diDone
+//@   props C03 C08 C10(sweep)
+//@   sweep bounds,panic,make,nilmem
+//@   callsites AddVoucher 1
+//@   callassert AddVoucher#1: @header s.BeforeVoucherPersist == nil ==> u(arg2.Header.Val) == IncompleteHdrOf(u(ctx)) && u(arg2.Hmac) == u(req.Hmac) && len(arg2.Entries) == 0 && arg2.Version == 101 && arg2.CertChain != nil && len(*arg2.CertChain) == len(deviceCertChain)
+//@   callassert AddVoucher#1: @chain u(deviceCertChain) == DevChainOf(u(ctx))
+
+//@ func fdo.DIServer.setCredentials
+//@   props C03 C08 C10(sweep)
+//@   sweep make
+//@   callsites SetIncompleteVoucherHeader 1
+//@   callassert SetIncompleteVoucherHeader#1: @stored u(arg2) == u(ovh) && u(ovh.RvInfo) == u(rvInfo) && ovh.Version == 101
+//@   ensures @sent ? err == nil ==> result0 != nil && u(result0.OVHeader.Val) == u(*ovh)
+
+// ---- extension: only the current owner, with a key of the manufacturer key's family
+// and size, signs; the new entry carries exactly the hashes validateNextEntry
+// recomputes (C04) --------------------------------------------------------------------------------------
+//@ func fdo.ExtendVoucher
+//@   props C04 C10(sweep)
+//@   sweep bounds,panic,make
+//@   callsites newSignedEntry 1
+//@   callassert newSignedEntry#1: @owner KeyEq(u(ownerPubKey), u(expectedOwnerPubKey)) && u(arg0) == u(owner)
+//@   callassert newSignedEntry#1: @lastkey imp(len(v.Entries) > 0, u(expectedOwnerPubKey) == PubOf(u(v.Entries[len(v.Entries)-1].Payload.Val.PublicKey))) && imp(len(v.Entries) == 0, u(expectedOwnerPubKey) == PubOf(u(v.Header.Val.ManufacturerKey)))
+//@   callassert newSignedEntry#1: @hdrhash arg2.HeaderHash.Algorithm == alg && bytes(arg2.HeaderHash.Value) == digest(happ(hinit(u(hashfn(alg))), bytes(headerInfo)))
+//@   callassert newSignedEntry#1: @prevhash arg2.PreviousHash.Algorithm == alg && imp(len(v.Entries) == 0, bytes(arg2.PreviousHash.Value) == digest(happ(happ(hinit(u(hashfn(alg))), Enc(u(v.Header.Val))), Enc(u(v.Hmac))))) && imp(len(v.Entries) > 0, bytes(arg2.PreviousHash.Value) == digest(happ(hinit(u(hashfn(alg))), Enc(u(v.Entries[len(v.Entries)-1])))))
+//@   callassert newSignedEntry#1: @nextkey u(arg2.PublicKey) == u(*nextOwnerPublicKey)
+
+//@ func fdo.newSignedEntry
+//@   nopaths
+//@   modifies nothing
+//@   ensures err == nil ==> result0 != nil
+//@ func fdo.Voucher.shallowClone
+//@   nopaths
+//@   pure
+//@   ensures result != nil
+
+// the owner produces service info only with the MTU the device announced in
+// message 66 (no MTU in the session = 66 was skipped = error) (C08)
+//@ func fdo.TO2Server.produceOwnerServiceInfo
+//@   props C08 C16 C10(sweep)
+//@   sweep bounds,panic,make
+//@   callsites NewProducer 1
+//@   callassert NewProducer#1: @mtu u(arg1) == MtuOf(u(ctx))
